@@ -1268,6 +1268,11 @@ def run_forest(case):
                     caller_aliased = True
                 if caller_aliased:
                     flags['aliased'] = True
+                # round 6: a RecursionError of an insert inside the known-finding classes (recorded parents form a cycle although
+                # the children lists do not): _invalidate_duration went round the cycle until the interpreter's recursion limit,
+                # the model until its fuel - the caches patched on the way are not comparable; the history ends before the step
+                if out == 'KRecursion' and kind == 'ins' and (flags.get('aliased') or flags.get('floating_edit')):
+                    break
                 _unshare(root, held, snap)
                 try:
                     st = {'f': rf, 'out': out, 'eq': eq, 'tree': observe(root), 'held': held_obs(), 'flags': flags}
